@@ -221,20 +221,29 @@ func main() {
 		}
 		wg.Wait()
 	} else {
-		n := maxPar
-		if len(cases) < n {
-			n = len(cases)
+		// small batches per worker process: goroutines leaked (or left spinning)
+		// by the engine after a case is cancelled must not starve later cases
+		batch := p.Batch
+		if batch == 0 {
+			batch = 6
 		}
+		n := (len(cases) + batch - 1) / batch
 		if n == 0 {
 			n = 1
 		}
+		if replayIdx >= 0 {
+			n = 1
+		}
+		sem := make(chan struct{}, maxPar)
 		var wg sync.WaitGroup
 		for sh := 0; sh < n; sh++ {
 			wg.Add(1)
+			sem <- struct{}{}
 			go func(sh int) {
 				defer wg.Done()
+				defer func() { <-sem }()
 				from := 0
-				for attempt := 0; attempt < len(cases)+2; attempt++ {
+				for attempt := 0; attempt < batch+2; attempt++ {
 					tag := fmt.Sprintf("shard-%d-%d", sh, attempt)
 					args := []string{"-shard", fmt.Sprint(sh), "-of", fmt.Sprint(n), "-from", fmt.Sprint(from)}
 					if replayIdx >= 0 {
@@ -243,6 +252,10 @@ func main() {
 					j, l := runWorker(tag, args...)
 					open, done := parse(j)
 					if done {
+						if !p.Race {
+							os.Remove(j)
+							os.Remove(l)
+						}
 						return
 					}
 					if open < 0 {
@@ -258,9 +271,6 @@ func main() {
 					}
 				}
 			}(sh)
-			if replayIdx >= 0 {
-				break
-			}
 		}
 		wg.Wait()
 	}
@@ -358,6 +368,13 @@ func main() {
 		fmt.Printf("KNOWN-FINDING: property=%s %s [%s]\n", id, knownSeen[s].What, s)
 	}
 	os.MkdirAll(filepath.Join(root, "replay"), 0o755)
+	if replayIdx < 0 {
+		if old, _ := filepath.Glob(filepath.Join(root, "replay", id+"-*.json")); old != nil {
+			for _, f := range old {
+				os.Remove(f)
+			}
+		}
+	}
 	for _, s := range violOrder {
 		vv := violBySig[s]
 		c := byIdx[vv.f.Idx]
